@@ -67,6 +67,7 @@ type Contract struct {
 	Inline     bool
 	Trusted    string
 	MayPanic   bool
+	OpaqueInterior string // reason: interior pointers stored into the heap are opaque handles (assumption)
 	Pure       bool // modifies nothing visible to the caller (checked on the body), deterministic
 	Det        bool // result and effects are functions of the inputs (every callee is det)
 	Opaque     bool
@@ -533,6 +534,11 @@ func (db *SpecDB) loadText(data, path, pkgPath string, extern bool) error {
 				cur.Callsback = append(cur.Callsback, strings.Fields(rest)...)
 			case "maypanic":
 				cur.MayPanic = true
+			case "opaque-interior-pointers":
+				cur.OpaqueInterior = strings.Trim(rest, "\"")
+				if cur.OpaqueInterior == "" {
+					cur.OpaqueInterior = "unspecified"
+				}
 			case "pure":
 				cur.Pure = true
 				cur.Det = true
